@@ -187,7 +187,7 @@ def _fields(case):
 _VARS_OUT = ".".join("{{ %s }}" % v for v in VARS)
 _VARS_CAT = ' ~ "." ~ '.join(VARS)
 
-H2_SRC = "{% macro deep() %}D({{ rv }}.{{ loc }}.{{ eg }}){% endmacro %}h2body"
+H2_SRC = "{% macro deep() %}D({{ rv }}.{{ loc }}.{{ eg }}.{{ hg }}){% endmacro %}h2body"
 BOOM_SRC = "B{{ nothing.attr }}"
 INNER_MISSING_SRC = 'X{% include "nope" %}'
 
@@ -432,15 +432,18 @@ def visible(mode, importer_vis, importer_tglobals, target_tglobals):
     vis.update(target_tglobals)
     if mode == "import-without":
         # CALIBRATED (docstring of Template._get_default_module): an import without context also
-        # sees the importing template's template-level globals
-        vis.update(importer_tglobals)
+        # sees the importing template's template-level globals ...
+        # CALIBRATED: ... but only those the importer itself can see: an importer that runs on its
+        # includer's context (included / imported with context) does not see its own template
+        # globals and does not pass them on
+        vis.update({k: v for k, v in importer_tglobals.items() if k in importer_vis})
     elif mode != "include-without":
         raise ValueError(mode)
     return vis
 
 
 def _deep(vis):
-    return "D(" + ".".join(vis.get(k, "") for k in ("rv", "loc", "eg")) + ")"
+    return "D(" + ".".join(vis.get(k, "") for k in ("rv", "loc", "eg", "hg")) + ")"
 
 
 def helper_body(shape, vis, hglob):
